@@ -95,10 +95,20 @@ def build(data):
         for name in ("f1", "f2", "f3"):
             if t["role"] == "lib" and g.chance(60):
                 items = [["text", "{%s.%s:" % (t["uri"], name)], ["arg", "a"]]
-                if later and g.chance(35):
+                if later and g.chance(45):
                     j = g.pick(later)
                     sp, kind = spell(g, t["uri"], T[j]["uri"], files)
-                    items.append(["include", sp, {}, kind])
+                    how = g.pick(["include", "include", "incfile", "gettemplate", "getns"])
+                    if how == "getns" and not T[j]["defs"]:
+                        how = "gettemplate"
+                    if how == "include":
+                        items.append(["include", sp, {}, kind])
+                    elif how == "incfile":
+                        items.append(["incfile", sp, {}, kind])
+                    elif how == "gettemplate":
+                        items.append(["gettemplate", sp, kind])
+                    else:
+                        items.append(["getns", sp, sorted(T[j]["defs"])[0], "'d%d'" % next(_cnt), kind])
                 items.append(["text", "}"])
                 t["defs"][name] = items
         if i > 0 and g.chance(60):
@@ -191,6 +201,16 @@ def build(data):
             sp0, kind0 = spell(g, T[0]["uri"], base["uri"], files)
             T[0]["inherit"] = [sp0, kind0]
             T[0]["body"].insert(len(T[0]["body"]) - 1, ["callselfns", "inh", sorted(T[j]["defs"])[0], "'h%d'" % next(_cnt)])
+            if g.chance(60):
+                d_ = g.pick(DIRS)
+                top = {"uri": "/" + (d_ + "/" if d_ else "") + "top%d.html" % n, "root": base["root"], "defs": {}, "ns": [], "page": [],
+                       "inherit": None, "shadow": None, "role": "main",
+                       "body": [["text", "[TOP"], ["probe"], ["nextbody"], ["text", "]"]]}
+                top["body"][0] = ["text", "[%s" % top["uri"]]
+                T.append(top)
+                spt, kindt = spell(g, base["uri"], top["uri"], files)
+                base["inherit"] = [spt, kindt]
+                case["three_level"] = True
     if g.chance(12):
         # an unresolvable target in a construct that is certainly executed (entry body)
         kind = g.pick(["include", "ns", "getns", "incfile", "gettemplate"])
@@ -350,7 +370,12 @@ class Model:
                 self.out.append("{helper.%s:%s}" % (it[1], eval(it[2])))
             elif k == "nextbody":
                 nt = ctx["next_t"]
-                self.body(nt, {}, dict(ctx, has_parent=True, has_next=False), chain=True)
+                nn = ctx.get("chain_next", {}).get(nt["uri"])
+                if nn is not None:
+                    # middle of a three-level chain: it has both a parent and a next
+                    self.body(nt, {}, dict(ctx, has_parent=True, has_next=True, next_t=dict(nn, _uri=nn["uri"]), chain_next={}), chain=True)
+                else:
+                    self.body(nt, {}, dict(ctx, has_parent=True, has_next=False), chain=True)
             elif k == "callselfns":
                 base = ctx["base_t"]
                 ns = [x for x in base["ns"] if x.get("name") == it[1]][0]
@@ -394,8 +419,16 @@ class Model:
         if t0["inherit"]:
             buri, base = self.resolve(t0["inherit"][0], t0["uri"])
             base = dict(base, _uri=buri)
-            ctx = {"self_uri": t0["uri"], "has_parent": False, "has_next": True, "next_t": t0, "base_t": base}
-            self.body(base, {}, ctx)
+            if base.get("inherit"):
+                turi, top = self.resolve(base["inherit"][0], buri)
+                top = dict(top, _uri=turi)
+                # top body runs first; its next is the middle template, whose next is the entry
+                ctx = {"self_uri": t0["uri"], "has_parent": False, "has_next": True, "next_t": base, "base_t": base,
+                       "chain_next": {base["uri"]: t0}}
+                self.body(top, {}, ctx)
+            else:
+                ctx = {"self_uri": t0["uri"], "has_parent": False, "has_next": True, "next_t": t0, "base_t": base}
+                self.body(base, {}, ctx)
         else:
             self.body(t0, {}, {"self_uri": t0["uri"], "has_parent": False, "has_next": False})
         return "".join(self.out)
@@ -407,7 +440,7 @@ def features(case):
     s = repr(case)
     return {"n": len(T), "dirs": len(dirs), "rel": "'rel'" in s, "abs": "'abs'" in s, "import": "'import': ['" in s,
             "inline": "'inline': ['" in s, "incargs": "'inc-" in s or "'cv'" in s, "files": case["files"], "missing": case["missing"],
-            "inherit": bool(T[0]["inherit"]), "shadow": any(t.get("shadow") for t in T), "module": "'module'" in s}
+            "inherit": bool(T[0]["inherit"]), "three_level": bool(case.get("three_level")), "shadow": any(t.get("shadow") for t in T), "module": "'module'" in s}
 
 
 def check_case(case, ev=None):
@@ -456,7 +489,7 @@ def check_case(case, ev=None):
         f = features(case)
         nt = f["n"] >= 3 and f["dirs"] >= 2 and f["rel"] and f["abs"] and (f["import"] or f["inline"] or f["incargs"])
         labels = ["n:%d" % f["n"], "files" if f["files"] else "put_string", "outcome:" + exp[0]] + [
-            k for k in ("import", "inline", "incargs", "inherit", "shadow", "module", "rel") if f[k]]
+            k for k in ("import", "inline", "incargs", "inherit", "three_level", "shadow", "module", "rel") if f[k]]
         if f["missing"]:
             labels.append("missing:" + f["missing"])
         if case.get("strict"):
